@@ -13,7 +13,8 @@ acceptance, never another exception).
 
 from dsim import gen, pipe
 from dsim import refmodel as R
-from dsim.actors import read_all, exc_summary, header_short_reads
+from dsim.actors import (read_all, read_twice, exc_summary,
+                         header_short_reads)
 from dsim.actors import STREAM_KINDS
 from dsim.world import World
 
@@ -204,6 +205,7 @@ def generate(rng, tier, cls):
             'stream': gen.gen_stream(rng)[0],
             'short_hdr': rng.randint(0, 999) if rng.chance(0.12) else None,
             'shadow': rng.below(50) if rng.chance(0.08) else None,
+            'twice': rng.chance(0.12),
             'blanks': rng.choice([0] * 20 + [1, 3, 200, 1200, 5000]),
             'lead': rng.choice([0] * 12 + [1, 2]),
             'mutate': rng.randint(1, 5) if rng.chance(0.08) else None,
@@ -363,6 +365,27 @@ def execute(scn, L):
         elif len(recs) != idx:
             info['yielded'] = len(recs)
             out.violate('C11.wrong-line-rejected', ctx, info)
+        elif scn.get('twice'):
+            # the reader object that has just refused the line, rewound and
+            # iterated again (for ... in reader): the line is refused again
+            w2 = World(scn, L)
+            recs2, end2, exc2 = read_twice(w2, data,
+                                           block_size=scn.get('block_size'),
+                                           actor='R2')
+            out.absorb(w2)
+            out.probe('refusing_reader_iterated_again')
+
+            if end2 == 'eof' or len(recs2) > idx:
+                out.violate('C11.invalid-accepted', ctx + ':second-pass',
+                            dict(info, yielded=len(recs2), end=end2))
+            elif end2 != 'raise' or not exc_summary(exc2, L)['parse_error']:
+                es = exc_summary(exc2, L) if exc2 is not None \
+                    else {'type': end2}
+                out.violate('C11.other-exception', '%s:%s:second-pass' % (
+                    es.get('type'), es.get('func')), dict(info, exc=es))
+            elif len(recs2) != idx:
+                out.violate('C11.wrong-line-rejected', ctx + ':second-pass',
+                            dict(info, yielded=len(recs2)))
 
         return out
 
